@@ -92,6 +92,16 @@ CLAIMED = {
             "Assumes python's hash collision-free on fingerprints; qp.execute plumbing and _cache_transform's hit/miss logic "
             "are not under contract; numpy interface.",
             "DESIGN.md 4 C05", "E2+E1"),
+    "C28": ("proof",
+            "contract on each built-in channel's compute_kraus_matrices under its own domain guards as path condition: all "
+            "radicands >= 0 and |sum K^dagger K - I| <= 16*eps (eps = the source's sqrt stabiliser); real kernel executed "
+            "on sympy-backed scalars, obligations discharged by z3 NRA; float replay",
+            "Kraus completeness of AmplitudeDamping, GeneralizedAmplitudeDamping, PhaseDamping, DepolarizingChannel, "
+            "BitFlip, PhaseFlip, ResetError and PauliError (six words) for every parameter of the documented domain, up to "
+            "the stabilising epsilon the code itself adds (exact equality is false by construction).",
+            "Trusts vf/symx/sscalar.py, sympy expand, z3 nlsat; ThermalRelaxationError, QubitChannel and everything about "
+            "default.mixed's evolution (PSD, trace, Kraus-sum simulation) is not covered.",
+            "DESIGN.md 4 C28", "E2"),
     "C61": ("proof",
             "contract on step/step_and_cost/apply_grad/compute_grad of the six gradient optimizers: outputs == documented "
             "update rule; real methods executed on sympy-backed symbolic scalars from an arbitrary accumulator state with an "
